@@ -69,6 +69,7 @@ macro_rules! dispatch {
             "C02" => $f(&props::c02::C02 $(, $arg)*),
             "C08" => $f(&props::c08::C08 $(, $arg)*),
             "C18" => $f(&props::c18::C18 $(, $arg)*),
+            "C17" => $f(&props::c17::C17 $(, $arg)*),
             other => {
                 eprintln!("unknown property {}", other);
                 3
